@@ -53,7 +53,7 @@ def suite_eval(ctx, case):
     # per-point absolute tolerance: the shifted forms subtract two O(eps (sigma/r)^12) numbers
     pp = case['p']; e_ = abs(pp.get('eps', 0.0)); s_ = pp['sigma']
     rc_ = pp.get('rcut') if case['pot'] != 'wca' else s_ * 2 ** (1.0 / 6.0)
-    mag = lambda x: 4 * e_ * ((s_ / x) ** 12 + (s_ / x) ** 6)
+    mag = lambda x: 0.0 if x == 0 else 4 * e_ * ((s_ / x) ** 12 + (s_ / x) ** 6)
     atols = [1e-12 * (mag(float(x)) + (mag(rc_) if rc_ else 0.0)) for x in r]
     ctx.corr('eval', case, ctx.drv.ask(line(case, r)), fl(out), rtol=1e-12, atols=atols, what=case['pot'] + '.calculate')
     ok = True; why = ''
@@ -91,8 +91,19 @@ def suite_sigma(ctx, case):
         sys_.diameter[t] = v
     sys_.omega[['A', 'B'], ['A', 'B']] = pyPRISM.omega.SingleSite()
     sys_.omega['A', 'B'] = pyPRISM.omega.NoIntra()
-    sys_.closure[['A', 'B'], ['A', 'B']] = pyPRISM.closure.PercusYevick()
-    sys_.potential[['A', 'B'], ['A', 'B']] = pyPRISM.potential.HardSphere()
+    how = case.get('assign', 'group')          # how the ONE sigma-less potential / closure object reaches the three pairs
+    if how == 'setunset':
+        sys_.closure.setUnset(pyPRISM.closure.PercusYevick()); sys_.potential.setUnset(pyPRISM.potential.HardSphere())
+    elif how == 'shared':
+        U = pyPRISM.potential.HardSphere(); C = pyPRISM.closure.PercusYevick()
+        for a, b in (('A', 'A'), ('A', 'B'), ('B', 'B')):
+            sys_.potential[a, b] = U; sys_.closure[a, b] = C          # one object assigned pair by pair
+    elif how == 'partial+setunset':
+        sys_.potential['A', 'A'] = pyPRISM.potential.HardSphere(); sys_.closure['B', 'B'] = pyPRISM.closure.PercusYevick()
+        sys_.closure.setUnset(pyPRISM.closure.PercusYevick()); sys_.potential.setUnset(pyPRISM.potential.HardSphere())
+    else:
+        sys_.closure[['A', 'B'], ['A', 'B']] = pyPRISM.closure.PercusYevick()
+        sys_.potential[['A', 'B'], ['A', 'B']] = pyPRISM.potential.HardSphere()
     explicit = case.get('explicit')
     if explicit is not None:
         sys_.potential['A', 'B'] = pyPRISM.potential.HardSphere(sigma=explicit)
@@ -155,7 +166,7 @@ def suite_objhistory(ctx, case):
         ref = np.array([documented(cur, float(x)) for x in r])
         pp = cur['p']; e_ = abs(pp.get('eps', 0.0)); s_ = pp['sigma']
         rc_ = pp.get('rcut') if cur['pot'] != 'wca' else s_ * 2 ** (1.0 / 6.0)
-        mag = lambda x: 4 * e_ * ((s_ / x) ** 12 + (s_ / x) ** 6)
+        mag = lambda x: 0.0 if x == 0 else 4 * e_ * ((s_ / x) ** 12 + (s_ / x) ** 6)
         at = np.array([1e-11 * (mag(float(x)) + (mag(rc_) if rc_ else 0.0)) for x in r])
         ok = bool(np.all((out == ref) | (np.abs(out - ref) <= 1e-11 * np.maximum(np.abs(ref), np.abs(out)) + at)))
         sub = dict(case, sigmas=case['sigmas'][:step + 1])
@@ -183,6 +194,7 @@ def gen_eval(rng, maxL):
     extra = [sigma * (1 - 1e-12), sigma, sigma * (1 + 1e-12)]
     if 'rcut' in p: extra += [p['rcut'] * (1 - 1e-12), p['rcut'], p['rcut'] * (1 + 1e-12)]
     if pot == 'wca': extra += [sigma * 2 ** (1.0 / 6.0), sigma * 1.12, sigma * 1.13]
+    if pot in ('hs', 'exp', 'hclj') and rng.random() < 0.25: r = [0.0] + r          # grids that start AT the origin (np.linspace(0, ...)): r = 0 is inside every core
     return {'pot': pot, 'p': p, 'r': r + extra, 'fam': sk}
 
 def generate(ctx):
@@ -214,9 +226,10 @@ def generate(ctx):
             d1 = float(pyPRISM.Domain(length=L, dr=dr).r[0]) * 0 + m * dr
             d2 = (m + 2 * rng.randrange(0, 3)) * dr
             case = {'L': L, 'dr': dr, 'd': [d1, d2], 'kT': rng.choice([1.0, 0.5, 2.0]), 'explicit': rng.choice([None, None, (m + 1) * dr])}
+            case['assign'] = rng.choice(['group', 'group', 'setunset', 'shared', 'partial+setunset'])
             c0 = rng.random()
             if c0 < 0.3: case['pre'] = [['A', 3 * dr], ['B', 5 * dr]]; case['order'] = rng.choice([[['A', d1]], [['B', d2], ['A', d1]], [['A', d1], ['B', d2]]])
             if case.get('order') == [['A', d1]]: case['d'] = [d1, 5 * dr]
             elif c0 < 0.45: case['order'] = [['B', d2], ['A', d1]]
-            ctx.case('sigma', case, True, tags=['sigma-suite dr=%g' % dr])
+            ctx.case('sigma', case, True, tags=['sigma-suite dr=%g' % dr, 'assign:' + case['assign']])
             suite_sigma(ctx, case)
